@@ -62,6 +62,7 @@ Find ==
          Ex(li, r) == r = FindLookupsSpec(T, T.sl[li], ToSet(E.on))
          S    == {li \in C : \A k \in 1..Len(E.results) : Ex(li, E.results[k])}
      IN  /\ T.present /\ Len(E.results) >= 1
+         /\ E.argmut = 0          \* the switch map is the caller's (and nil stands for the package's default set): not written to
          /\ IF Strict
               THEN /\ S # {}
                    /\ IF E.tab = "GSUB" THEN cg' = Narrow(cg, E.lang.tag, S) /\ cp' = cp
@@ -87,7 +88,7 @@ Layouts ==
          Ex(c, o) == o = Layout(F, E.s, E.swg, E.swp, c[1], c[2], <<c[3][1], c[3][2], c[4]>>)
          All == CG \X CP \X RR \X FP
          S   == {c \in All : \A k \in 1..Len(E.outs) : Ex(c, E.outs[k])}
-     IN  /\ HasCmap(F) /\ Len(E.outs) >= 1 /\ E.err = ""
+     IN  /\ HasCmap(F) /\ Len(E.outs) >= 1 /\ E.err = "" /\ E.argmut = 0
          /\ IF Strict
               THEN /\ S # {}
                    /\ cg' = Narrow(cg, tag, {c[1] : c \in S})
